@@ -2,6 +2,7 @@ package main
 
 import (
 	"bytes"
+	"runtime"
 	"context"
 	"fmt"
 	"os"
@@ -39,7 +40,17 @@ var solvers = []SolverCfg{
 	}},
 }
 
+// solverSlots bounds the number of solver processes running at once (one per core), so that per-query time limits
+// measure solver work and not queueing.
+var solverSlots = make(chan struct{}, runtime.NumCPU())
+
 func runSolver(ctx context.Context, cfg SolverCfg, script string, timeoutMs, seed int) (string, float64, error) {
+	select {
+	case solverSlots <- struct{}{}:
+		defer func() { <-solverSlots }()
+	case <-ctx.Done():
+		return "", 0, ctx.Err()
+	}
 	args := cfg.Args(timeoutMs, seed)
 	cctx, cancel := context.WithTimeout(ctx, time.Duration(timeoutMs+3000)*time.Millisecond)
 	defer cancel()
